@@ -237,18 +237,42 @@ def _only_len(t: FuncInfo) -> bool:
                         elems.add(y.id)
                         changed = True
     pm = parents_map(t.node)
+    # elements handed to a local function through reduce / map / filter: that function's element parameter is a handle too
+    nested = {f.name: f for f in ast.walk(t.node) if isinstance(f, ast.FunctionDef) and f is not t.node}
+    via = {}  # nested function name -> index of the parameter that receives the elements
+    for c in [y for y in walk_no_nested(t.node) if isinstance(y, ast.Call)]:
+        fn = (dotted(c.func) or "").split(".")[-1]
+        if fn in ("reduce", "map", "filter", "starmap") and len(c.args) >= 2 and isinstance(c.args[0], ast.Name) and c.args[0].id in nested:
+            if any(isinstance(y, ast.Name) and y.id in elems for a_ in c.args[1:] for y in ast.walk(a_)):
+                via[c.args[0].id] = 1 if fn == "reduce" else 0
+    for name, idx in via.items():
+        g = nested[name]
+        if idx >= len(g.args.args):
+            return False
+        ep = g.args.args[idx].arg
+        gpm = parents_map(g)
+        for y in ast.walk(g):
+            if isinstance(y, ast.Name) and y.id == ep and isinstance(y.ctx, ast.Load):
+                q = gpm.get(id(y))
+                if not (isinstance(q, ast.Call) and isinstance(q.func, ast.Name) and q.func.id == "len" and y in q.args):
+                    return False
     for x in walk_no_nested(t.node):
         if not (isinstance(x, ast.Name) and x.id in elems and isinstance(x.ctx, ast.Load)):
             continue
         p = pm.get(id(x))
         if isinstance(p, ast.Call) and isinstance(p.func, ast.Name) and p.func.id in ("len", "iter", "next") and x in p.args:
             continue
+        if isinstance(p, ast.Call) and (dotted(p.func) or "").split(".")[-1] in ("reduce", "map", "filter", "starmap") and isinstance(p.args[0], ast.Name) and p.args[0].id in via and x in p.args[1:]:
+            continue
+        gp = pm.get(id(p)) if isinstance(p, ast.Call) and isinstance(p.func, ast.Name) and p.func.id == "iter" else None
+        if gp is not None:
+            continue
         if isinstance(p, (ast.For, ast.comprehension)) and p.iter is x:
             continue
         if isinstance(p, ast.Compare) and all(isinstance(o, (ast.Is, ast.IsNot)) for o in p.ops):
             continue
         return False
-    return any(isinstance(x, ast.Call) and isinstance(x.func, ast.Name) and x.func.id == "len" for x in walk_no_nested(t.node))
+    return any(isinstance(x, ast.Call) and isinstance(x.func, ast.Name) and x.func.id == "len" for x in ast.walk(t.node))
 
 
 # ----------------------------------------------------------------------------- R2
